@@ -327,6 +327,8 @@ def build(unit, repo, outdir):
         text = apply_rewrites(text, item.get('rewrites') or [], log, key)
         if text.lstrip().startswith('fn ') or item.get('fragment'):
             text = splice_fn(text, item, key)
+        elif re.match(r'\s*(enum|struct)\s', text):
+            text = 'pub ' + text.lstrip()   # visibility was dropped with the span; types are public inside the single verified file
         line0 = src.src.count('\n', 0, s) + 1
         items_info.append({
             'key': key, 'file': item['file'], 'item': item['path'],
